@@ -2,6 +2,7 @@ import logging
 from collections.abc import Iterable
 from typing import TYPE_CHECKING, NamedTuple, Optional
 
+from dvc_objects.errors import ObjectFormatError
 from dvc_objects.fs import Schemes
 
 from .hash_info import HashInfo
@@ -70,7 +71,10 @@ def _indexed_dir_hashes(
         if not tree:
             try:
                 tree = Tree.load(cache_odb, HashInfo(name, dir_hash))
-            except FileNotFoundError:
+            except (FileNotFoundError, ObjectFormatError):
+                # NOTE: a corrupted .dir (e.g. leftover of an interrupted
+                # transfer) is not trusted, it will be checked and
+                # re-transferred like any other missing object.
                 continue
         file_hashes = [hi.value for _, _, hi in tree]
         if dir_hash not in index:
